@@ -40,6 +40,7 @@ fn main() {
         "lex-fuzz" => xv::lexrep::cmd_fuzz(rest),
         "loc-replay" => xv::loc::cmd_replay(rest),
         "locfn-replay" => xv::loc::cmd_fn_replay(rest),
+        "locnest-replay" => xv::loc::cmd_nested_replay(rest),
         "textcodec-record" => xv::textcodec::cmd_record(rest),
         "let-replay" => xv::letrep::cmd_replay(rest),
         "clone-record" => xv::clone::cmd_record(rest),
